@@ -85,7 +85,8 @@ Proof. apply grow0_nostore; cbn [hp st g_slots scap with_ip]; auto; lia. Qed.
 Lemma wfm_with_ip s i : wfm s -> wfm (with_ip s i).
 Proof.
   intros W. apply (wfm_nostore s (with_ip s i) W eq_refl (grow0_with_ip s i)); cbn [hp acc g_slots with_ip]; auto.
-  apply (w_heap s W).
+  - apply (w_heap s W).
+  - apply (w_gbind s W).
 Qed.
 Lemma np0_set_ip i s : wfm s -> npost0 A s (set_ip i s) (fun s' _ => ip s' = i).
 Proof.
